@@ -99,6 +99,12 @@ def _run(V, work, tier):
             for mutual in (False, True):
                 cases.append(("c%s%d" % (w[0], mutual), _c01.closure_loop_program(w, mutual), "closure-loop"))
 
+    # the MIX family (gen/mix.py): tail loops, mutual recursion and ordinary recursion next to closures, handlers, macros,
+    # cross-package calls, threading forms and higher-order builtins - on, off and under the profiler
+    import mix
+    for i in range(400 if thorough else 60):
+        cases.append(("x%d" % i, mix.mix_program(rnd, depth=rnd.choice([3, 4])) if i % 3 else mix.mix_fail_program(rnd), "mix"))
+
     # Machine predictions: every program with elimination on and off
     recs, drv = [], []
     for cid, forms, kind in cases:
